@@ -100,6 +100,82 @@ def run_fault(acc, front, framing, hosted, bc, ign, fail_unit, unit):
     return what
 
 
+def run_stale_header(acc, front, framing, hosted, a, b):
+    """a request for unit a arrives only partly (header complete), the front-end then drops it (idle timeout on the
+    synchronous TCP handler, datagram boundary on the UDP servers); the next, complete request goes to unit b"""
+    import socket
+    ctx, ref, real, log = build(hosted, False, False)
+    srv = servers.Server(front, framing, ctx)
+    conn = srv.open()
+    m1 = REQS['W'](0)
+    m2 = dict(kind='req', fc=6, address=4, value=0x0B0B)
+    f1 = scenario.frame(framing, a, 0x0301, m1)
+    f2 = scenario.frame(framing, b, 0x0302, m2)
+    before = scenario.dumps(real)
+    if front == 'sync-tcp':
+        writes = conn.run_script([f1[:9], socket.timeout('timed out'), f2])
+    else:
+        conn.run_script([f1[:9]])
+        writes = conn.run_script([f2])
+    got = scenario.parse_out(framing, writes)
+    alts = ref.handle(b, m2)
+    after, want = scenario.dumps(real), scenario.ref_dumps(ref)
+    srv.shutdown()
+    acc.inc('transitions', 2)
+    acc.inc('evaluations')
+    what = None
+    replies = [x for x in alts if x is not None]
+    if after != want:
+        what = 'wrong-store'
+    elif got and (not replies or all(scenario.match(framing, got[0], b, 0x0302, x) is not None for x in replies)):
+        what = 'wrong-reply'
+    elif not got and None not in alts:
+        what = 'no-reply'
+    if what:
+        acc.violation('C10/%s/%s/multi/after-dropped-partial-frame/%s' % (front, framing, what),
+                      dict(front=front, framing=framing, hosted=list(hosted), bc=False, ign=False, stale=[a, b]),
+                      'partial request for unit %d dropped, then a request for unit %d: %s (wrote %r)' % (a, b, what, [w.hex() for w in writes]),
+                      '%s/%s' % (front, framing))
+    return what
+
+
+def run_defaults(acc, front, framing):
+    """unit contexts built by the real ModbusSlaveContext constructor with tables left at their default:
+    a write to unit 1 must not show through unit 2 (observed through replies; the default blocks have 65536 cells)"""
+    from pymodbus.datastore import ModbusSequentialDataBlock, ModbusSlaveContext
+    from checks.c04 import FullTable
+    from ref import datamodel
+    reset.control_block()
+    real, refs = {}, {}
+    for u in (1, 2):
+        real[u] = ModbusSlaveContext(zero_mode=True, hr=ModbusSequentialDataBlock(0, [0x5000 + u] * 8))
+        refs[u] = datamodel.Store({'d': FullTable(), 'c': FullTable(), 'i': FullTable(), 'h': dict((i, 0x5000 + u) for i in range(8))})
+    ctx = servers.server_context(dict(real), False)
+    ref = routing.RefServer(refs, False, False, False)
+    srv = servers.Server(front, framing, ctx)
+    conn = srv.open()
+    steps = [(1, dict(kind='req', fc=5, address=3, value=0xFF00)), (2, dict(kind='req', fc=1, address=3, count=1)),
+             (1, dict(kind='req', fc=15, address=9, count=2, byte_count=1, bits=[True, True])), (2, dict(kind='req', fc=1, address=9, count=2)),
+             (2, dict(kind='req', fc=2, address=3, count=1)), (1, dict(kind='req', fc=6, address=2, value=0x0777)),
+             (2, dict(kind='req', fc=3, address=2, count=1)), (2, dict(kind='req', fc=4, address=2, count=1))]
+    bad = None
+    for i, (unit, m) in enumerate(steps):
+        want = ref.handle(unit, m)[0]
+        got = scenario.parse_out(framing, conn.run_script([scenario.frame(framing, unit, 0x0200 + i, m)]))
+        acc.inc('transitions')
+        if len(got) != 1 or scenario.match(framing, got[0], unit, 0x0200 + i, want) is not None:
+            bad = (i, unit, m, got)
+            break
+    srv.shutdown()
+    acc.inc('evaluations')
+    if bad:
+        i, unit, m, got = bad
+        acc.violation('C10/%s/%s/multi/default-tables/other-store-touched' % (front, framing),
+                      dict(front=front, framing=framing, hosted=[1, 2], bc=False, ign=False, defaults=True, steps=[[u, pdu.encode(mm).hex()] for u, mm in steps[:i + 1]]),
+                      'units built with default tables: step %d to unit %d answered %r' % (i, unit, [g.get('pdu', b'').hex() for g in got]), '%s/%s' % (front, framing))
+    return bad
+
+
 def run_one(acc, front, framing, hosted, bc, ign, steps, record=True):
     ctx, ref, real, log = build(hosted, bc, ign)
     srv = servers.Server(front, framing, ctx, broadcast_enable=bc, ignore_missing_slaves=ign)
@@ -189,7 +265,12 @@ def shard(args):
                     for b in seq_units:
                         run_one(acc, front, framing, hosted, bc, ign, [(a, 'W'), (b, 'R')])
                         n += 1
-    acc.inc('states', n)
+    run_defaults(acc, front, framing)
+    if framing == 'tcp' and front in ('sync-tcp', 'sync-udp', 'aio-udp', 'tw-udp'):
+        for a, b in ((1, 2), (2, 1), (1, 1), (9, 1), (1, 9)):
+            run_stale_header(acc, front, framing, (1, 2), a, b)
+            n += 1
+    acc.inc('states', n + 1)
     acc.add('nontrivial', (front, framing))
     acc.sample(dict(front=front, framing=framing, hosted_sets=[list(h) if h else 'single' for h in HOSTED], units=units[:12]))
     return acc
@@ -212,7 +293,11 @@ def run(tier, seed):
 
 def replay(w):
     acc = Acc()
-    if 'fail_unit' in w:
+    if w.get('stale'):
+        p = run_stale_header(acc, w['front'], w['framing'], tuple(w['hosted']), w['stale'][0], w['stale'][1])
+    elif w.get('defaults'):
+        p = run_defaults(acc, w['front'], w['framing'])
+    elif 'fail_unit' in w:
         p = run_fault(acc, w['front'], w['framing'], tuple(w['hosted']) if w['hosted'] else None, w['bc'], w['ign'],
                       w['fail_unit'], w['steps'][0][0])
     else:
